@@ -18,6 +18,7 @@
 (*   [k|->"self"]  (the caller's own uuid; unresolved filters only)        *)
 (* Resolved filters carry the index slope s on every node (0 = None).      *)
 (*                                                                         *)
+(* Class value ids: 90 object (every entry), 91 recycled, 92 tombstone.     *)
 (* Values are naturals.  String-valued attributes (StrAttrs) use value ids *)
 (* 1,2 and needle ids 0,1,2 which stand for the character strings below    *)
 (* (characters are 1="a" 2="b" 3="x"): value 1="abx" value 2="xab",        *)
@@ -181,6 +182,21 @@ FastOptimise(rf) ==
                        IN [k |-> "and", fs |-> srt, s |-> IF srt = <<>> THEN 0 ELSE srt[1].s]
   ELSE rf
 
+(* Candidate repair of D1 (notes/fix-C01.patch, FilterResolved::anchor_andnot): before optimising, every AndNot
+   without a positive sibling (root, inside OR, inside AndNot, AND of AndNots only) is anchored with Pres(class),
+   which every entry satisfies, so that the backend has a candidate set to exclude from. *)
+RECURSIVE Anchor(_, _, _)
+Anchor(rf, pos, idx) ==
+  LET cp == [k |-> "pres", a |-> "class", s |-> Slope(idx, "class", "pres")]
+  IN CASE rf.k = "not" -> LET g == [k |-> "not", f |-> Anchor(rf.f, FALSE, idx), s |-> rf.s]
+                          IN IF pos THEN g ELSE [k |-> "and", fs |-> <<cp, g>>, s |-> 0]
+       [] rf.k = "and" -> LET haspos == \E i \in DOMAIN rf.fs : rf.fs[i].k # "not"
+                              l == [i \in DOMAIN rf.fs |-> Anchor(rf.fs[i], TRUE, idx)]
+                          IN [k |-> "and", fs |-> IF ~haspos /\ rf.fs # <<>> THEN <<cp>> \o l ELSE l, s |-> rf.s]
+       [] rf.k = "or"  -> [k |-> "or", fs |-> [i \in DOMAIN rf.fs |-> Anchor(rf.fs[i], FALSE, idx)], s |-> rf.s]
+       [] OTHER -> rf
+RewriteFixed(f, idx, sid) == Optimise(Anchor(ResolveIdx(f, idx, sid), FALSE, idx))
+
 \* what Filter::resolve produces: with index metadata / without
 Rewrite(f, idx, sid)   == Optimise(ResolveIdx(f, idx, sid))
 RewriteNoIdx(f, sid)   == FastOptimise(ResolveNoIdx(f, sid))
@@ -234,9 +250,9 @@ AndNegStep(cand, inter, cnt, th, fix) ==
             ELSE [done |-> FALSE, v |-> Idl("partial", r)]
 
 (* c = [th |-> filter-test threshold, fix |-> BOOLEAN, pres |-> attributes that have a presence index table]
-   fix = FALSE : the code as it is.  fix = TRUE : candidate repair -- an AndNot outside an AND with a
-   positive term yields AllIds (instead of Indexed(empty)), and an AndNot whose inner candidate set is
-   only a superset (Partial / PartialThreshold) is not subtracted. *)
+   fix = FALSE : the code as it is.  fix = TRUE : candidate repair of D2 -- an AndNot whose inner candidate
+   set is only a superset (Partial / PartialThreshold) is not subtracted.  (D1 is repaired one layer up, by
+   Anchor in the rewrite: filter2idl's answers for isolated AndNot terms are pinned by the unit tests.) *)
 Cfg(th, fix, pres) == [th |-> th, fix |-> fix, pres |-> pres]
 PresAttrs(idx) == {a \in {"a", "b", "class", "uuid"} : IKey(a, "pres") \in DOMAIN idx}
 RECURSIVE F2I(_, _, _), OrFold(_, _, _, _, _, _, _), AndPos(_, _, _, _, _, _, _), AndNeg(_, _, _, _, _, _)
@@ -253,12 +269,12 @@ F2I(rf, db, c) ==
              rem  == SelectSeq(rf.fs, LAMBDA x : ~IsNot(x))
              cnt0 == Len(rem) + Len(nots) - 1
          IN IF rem = <<>> THEN
-              (IF c.fix /\ nots # <<>> THEN AllIdsV ELSE Idl("indexed", {}))
+              Idl("indexed", {})
             ELSE LET first == F2I(rem[1], db, c)
                  IN IF first.k # "allids" /\ Below(first.s, c.th) /\ cnt0 > 0 THEN Idl("pthres", first.s)
                     ELSE IF first.k # "allids" /\ first.s = {} THEN Idl("indexed", {})
                     ELSE AndPos(rem, 2, first, cnt0, nots, db, c)
-    [] rf.k = "not"  -> IF c.fix THEN AllIdsV ELSE Idl("indexed", {})
+    [] rf.k = "not"  -> Idl("indexed", {})
     [] rf.k = "inv"  -> Idl("indexed", {})
 
 OrFold(fs, i, acc, part, thr, db, c) ==
